@@ -179,8 +179,8 @@ void run(Ctx &ctx, const std::string &w) {
             if (!c.batch.empty() && c.evs[c.batch.back()].weight) { bool more = false; for (int id : pendingIds()) if (c.evs[id].codeKey <= current_dtime && std::find(before.begin(), before.end(), id) != before.end()) more = true; if (more) ++heavyBreaks; }
             if (c.batch != exp) ++batchDiffers;
             // return value: informational (the statement does not cover it)
-            std::vector<int> p = pendingIds();
-            if (p.empty() != (rem == AsyncEngine::EVENT_IDLE)) ++remainingOdd;
+            // (judged against the queue as it was when checkEvents() returned, i.e. before handlers ran)
+            if (c.batch == exp && (before.size() == exp.size()) != (rem == AsyncEngine::EVENT_IDLE)) ++remainingOdd;
         };
 
         for (size_t n = 0; n < ops.size() && !dead; ++n) {
@@ -202,7 +202,7 @@ void run(Ctx &ctx, const std::string &w) {
             case 'F': {
                 const std::vector<int> p = pendingIds();
                 if (p.empty()) break;
-                const Ev &t = c.evs[p[o.n % p.size()]];
+                Ev &t = c.evs[p[o.n % p.size()]];
                 if (!sched.find(Handlers[t.func], &t.slot)) fail("find:pending-not-found", "pending event " + std::to_string(t.id) + " is not found");
                 for (auto &e : c.evs) if ((e.fired || e.cancelled) && sched.find(Handlers[e.func], &e.slot)) { fail("find:stale", "fired/cancelled event " + std::to_string(e.id) + " is still found in the queue"); break; }
                 break; }
